@@ -235,6 +235,8 @@ def on_placement(p, r, exc, acc):
     acc.vcs += 1
     want = placement_expected(r["wrappers"], r["duplicate"])
     acc.counts[want] += 1
+    if r["got"] == want:
+        acc.good("block-placement", dict(wrappers=r["wrappers"], duplicate=r["duplicate"]))
     if r["got"] != want:
         acc.candidate(kind="block-placement", input=dict(wrappers=r["wrappers"], duplicate=r["duplicate"]), detail="%s, documented: %s" % (r["got"], want))
     if len(acc.samples) < 8:
@@ -289,6 +291,8 @@ def on_extras(p, r, exc, acc):
     acc.tags["ran"] += 1
     acc.vcs += 1
     want = " ".join(extras_reference(r["f"]).split())
+    if r["got"] == want:
+        acc.good("include-or-body-arguments-in-chain", dict(extras=r["f"]))
     if r["got"] != want:
         acc.candidate(kind="include-or-body-arguments-in-chain", input=dict(extras=r["f"]), detail="rendered %r, documented %r" % (r["got"], want))
     acc.sample(dict(flags=r["f"], output=r["got"]))
@@ -380,9 +384,11 @@ def run(check, tier):
     for j in jobs:
         driver.register(j[0], j[1], j[2])
     cands = []
+    goods = []
     for name, _h, _o, title, bounds, req in jobs:
         st, acc = driver.explore(name, time_limit=1500)
         check.section(title, st, acc, bounds, tags_required=req)
         cands.extend(acc.candidates)
-    check.confirm(cands, make_replay, classify, max_confirm=12)
+        goods.extend(acc.goods)
+    check.confirm(cands, make_replay, classify, max_confirm=12, goods=goods)
     driver.close_pool()
